@@ -148,6 +148,16 @@ def campaign(c):
         impl, model = progdiff.run_both(c, src)
         judge_cli(c, src, impl, model, 'refshape')
         c.case(('ref', shape), dict(kind='refshape', shape=shape, outcome=str(impl['outcome'])) if len(shape) % 5 == 0 else None)
+    # (2b) values that end up in diagnostics (discarded-value warning, "not callable"): strings of every length with
+    #      ASCII / multi-byte / invalid-UTF-8 content at every alignment
+    for L in range(0, 140, 1 if not c.quick else 3):
+        for tail in ('é', '€', '|ff|', '|c3|', 'x', '😀'):
+            body = 'a' * L + tail + 'b' * (L % 7)
+            for tmpl in ('import text;\ntext::concat("%s");\n', 'import text;\nlet s = text::concat("%s");\ns();\n', 'import text;\nlet s = "%s";\ns.x;\ns;\n'):
+                src = (tmpl % body).encode('utf-8')
+                impl, model = progdiff.run_both(c, src)
+                judge_cli(c, src, impl, model, 'diag-value')
+        c.case(('diag', L), dict(kind='diag-value', length=L) if L % 20 == 0 else None)
     # (3) source fuzz
     n = 150 if c.quick else 6000
     for i in range(n):
